@@ -490,21 +490,6 @@ def run_driver(cases, timeout=600):
     return out
 
 
-def probe_and_query(ctx, cases, k_queries):
-    """First run: build every mesh without queries to learn its shape; then generate the queries."""
-    infos = run_driver(cases)
-    keep = []
-    for c, inf in zip(cases, infos):
-        if "error" in inf:
-            ctx.count("mesh could not be built: " + c["build"].get("name", c["build"]["kind"]))
-            continue
-        if inf["n"] == 0 or not inf["edges"]:
-            continue
-        c["queries"] = gen_queries(ctx.rng, inf, k_queries)
-        keep.append(c)
-    return keep
-
-
 def fails_single(case, qi):
     """re-run one query of a case on the implementation; returns (info, message|None)"""
     c = dict(case, queries=[case["queries"][qi]])
@@ -514,7 +499,7 @@ def fails_single(case, qi):
     return inf, oracle_query(c, inf, c["queries"][0], inf["obs"][0])
 
 
-def shrink(case, qi, budget=30):
+def shrink(case, qi, budget=20):
     """keep only the failing query, then drop mesh elements while the oracle still fails"""
     cur = dict(copy.deepcopy(case), queries=[case["queries"][qi]])
     b = cur["build"]
@@ -522,6 +507,8 @@ def shrink(case, qi, budget=30):
     if not m0:
         return cur
     want = classify(cur, cur["queries"][0], inf0["obs"][0])     # only accept reductions failing the same way
+    if inf0["obs"][0][0] == "timeout":
+        budget = min(budget, 6)
     msg0 = inf0["obs"][0][1:]
     if b["kind"] not in ("arrays", "raw"):
         return cur
@@ -548,7 +535,7 @@ def shrink(case, qi, budget=30):
 # ---------------------------------------------------------------------- the check
 def run(ctx):
     quick = ctx.tier == "quick"
-    n_cases = 240 if quick else 3400
+    n_cases = 200 if quick else 3400
     k_queries = 5 if quick else 6
     ctx.rule = ("meshes: lattice polylines (2-20 vertices, possibly disconnected), 3-4-5 grid surfaces (tri/quad/mixed, "
                 "optional hole), closed Euler-brick tetrahedron / box surface, 5-tet Euler-brick volume rows, mouette.procedural "
@@ -570,16 +557,25 @@ def run(ctx):
         for f in sorted(os.listdir(cdir)):
             if f.endswith(".json"):
                 corpus.append(json.load(open(os.path.join(cdir, f))))
-    fresh = [gen_case(ctx.rng) for _ in range(n_cases)]
-    fresh = probe_and_query(ctx, fresh, k_queries)
+    fresh = []
+    for _ in range(n_cases):
+        c = gen_case(ctx.rng)
+        c["qseed"] = ctx.rng.getrandbits(48)     # the driver draws the queries once it knows the mesh (gen_queries)
+        c["k"] = k_queries
+        fresh.append(c)
     cases = [c for c in corpus if c.get("queries")] + fresh
     infos = run_driver(cases)
     ok_cases, ok_infos = [], []
     for c, inf in zip(cases, infos):
         if "error" in inf:
-            ctx.count("driver error")
+            ctx.count("mesh could not be built / driver error: " + (c["build"].get("name") or c["build"]["kind"]))
             ctx.log("driver error:", inf["error"])
             continue
+        if not inf["queries"]:
+            continue
+        c["queries"] = inf["queries"]
+        c.pop("qseed", None)
+        c.pop("k", None)
         ok_cases.append(c)
         ok_infos.append(inf)
     cases, infos = ok_cases, ok_infos
